@@ -12,7 +12,8 @@ FORMATS = ["nested_list", "dense", "csr_matrix", "csc_matrix", "coo_matrix", "li
 def connected_graph(draw, min_n=1, max_n=7):
     """{"n", "edges"}: a connected simple graph: a family member or a random spanning tree (biased towards
     path-like trees so that diameters >= 3 occur) plus extra edges, in a random labelling"""
-    kind = draw(st.sampled_from(["tree+", "tree+", "tree+", "path", "cycle", "star", "complete", "bipartite"]))
+    kind = draw(st.sampled_from(["tree+", "tree+", "tree+", "path", "cycle", "star", "complete", "bipartite",
+                                 "broom", "spider", "caterpillar", "double_star"]))
     n = draw(st.one_of(st.integers(min_n, max_n), st.sampled_from(list(range(min_n, max_n + 1)))))
     edges = set()
     if kind == "path" or n <= 2:
@@ -26,6 +27,28 @@ def connected_graph(draw, min_n=1, max_n=7):
     elif kind == "bipartite":
         a = draw(st.integers(1, n - 1))
         edges = {(i, j) for i in range(a) for j in range(a, n)}
+    elif kind == "broom":            # a path with a bunch of leaves at one end
+        a = draw(st.integers(1, n - 1))
+        edges = {(i, i + 1) for i in range(a - 1)} | {(a - 1, v) for v in range(a, n)}
+    elif kind == "spider":           # legs of generated lengths meeting in vertex 0
+        v = 1
+        while v < n:
+            ln = draw(st.integers(1, 4))
+            prev = 0
+            for _ in range(ln):
+                if v >= n:
+                    break
+                edges.add((prev, v))
+                prev = v
+                v += 1
+    elif kind == "caterpillar":      # a spine with leaves hanging off generated spine vertices
+        a = draw(st.integers(1, n))
+        edges = {(i, i + 1) for i in range(a - 1)}
+        for v in range(a, n):
+            edges.add((draw(st.integers(0, a - 1)), v))
+    elif kind == "double_star":
+        a = draw(st.integers(1, max(1, n - 2)))
+        edges = {(0, 1)} | {(0, v) for v in range(2, 2 + a - 1)} | {(1, v) for v in range(2 + a - 1, n)}
     else:
         for v in range(1, n):
             p = v - 1 if draw(st.integers(0, 2)) else draw(st.integers(0, v - 1))
@@ -98,3 +121,54 @@ def all_connected_labelled_graphs(max_n=4):
             if len(mgh.components(n, [tuple(e) for e in edges])) == 1:
                 out.append(g)
     return out
+
+
+@st.composite
+def related_pair(draw, min_n=4, max_n=10):
+    """(G, H) where H is G after 1..3 local edits (move a leaf, add a chord, delete a leaf, subdivide an edge) and a relabelling:
+    similar graphs whose diameters differ by 0..2 - the regime where an unsound lower bound shows (true distance 0.5 .. 1.5)"""
+    g = draw(connected_graph(min_n, max_n))
+    n = g["n"]
+    edges = {tuple(e) for e in g["edges"]}
+    k = draw(st.integers(1, 3))
+    for _ in range(k):
+        kind = draw(st.sampled_from(["move_leaf", "add_chord", "delete_leaf", "subdivide", "add_leaf"]))
+        deg = {v: 0 for v in range(n)}
+        for a, b in edges:
+            deg[a] += 1
+            deg[b] += 1
+        leaves = [v for v in range(n) if deg[v] == 1]
+        if kind == "move_leaf" and leaves and n >= 3:
+            v = leaves[draw(st.integers(0, len(leaves) - 1))]
+            edges = {e for e in edges if v not in e}
+            w = draw(st.integers(0, n - 1))
+            if w == v:
+                w = (v + 1) % n
+            edges.add((min(v, w), max(v, w)))
+        elif kind == "add_chord" and n >= 3:
+            a = draw(st.integers(0, n - 1))
+            b = draw(st.integers(0, n - 1))
+            if a != b:
+                edges.add((min(a, b), max(a, b)))
+        elif kind == "delete_leaf" and leaves and n >= 4:
+            v = leaves[draw(st.integers(0, len(leaves) - 1))]
+            edges = {e for e in edges if v not in e}
+            ren = {u: (u if u < v else u - 1) for u in range(n) if u != v}
+            edges = {(min(ren[a], ren[b]), max(ren[a], ren[b])) for a, b in edges}
+            n -= 1
+        elif kind == "subdivide" and edges:
+            es = sorted(edges)
+            a, b = es[draw(st.integers(0, len(es) - 1))]
+            edges.discard((a, b))
+            edges.add((min(a, n), max(a, n)))
+            edges.add((min(b, n), max(b, n)))
+            n += 1
+        elif kind == "add_leaf":
+            w = draw(st.integers(0, n - 1))
+            edges.add((w, n))
+            n += 1
+    h = {"n": n, "edges": sorted(list(e) for e in edges), "kind": "edited"}
+    if len(mgh.components(n, [tuple(e) for e in h["edges"]])) != 1:
+        h = dict(g)
+    perm = draw(st.permutations(list(range(h["n"]))))
+    return g, relabel(h, perm)
